@@ -70,6 +70,28 @@ fn to_rot_f64(d: &mut Draw) -> Outcome {
     let eq = Matrix3::from(q).rm().max_abs_diff(&want);
     ensure!(eq <= tol, "quaternion-xyz-f64", "Quaternion::from(Euler) differs from Rx Ry Rz by {:e}", eq);
     ensure!((q.magnitude() - 1.0).abs() <= 1e-14, "quaternion-unit-f64", "|Quaternion::from(Euler)| = {}", q.magnitude());
+    // "for all angles": any finite angle, however huge (up to MAX, in either unit). Its sine and cosine cannot be predicted
+    // by a reference to any useful accuracy, but the clause itself needs none: every representation built from the triple must
+    // be finite, orthonormal and equal to the library's own from_angle_x * from_angle_y * from_angle_z of the same three values
+    {
+        let h = |d: &mut Draw| d.f64_slog(1e290, f64::MAX);
+        let (hx, hy, hz) = (h(d), h(d), h(d));
+        d.note("huge angles", &(hx, hy, hz));
+        let ((m3, m4, b3, q), prod): ((Matrix3<f64>, Matrix4<f64>, Basis3<f64>, Quaternion<f64>), Matrix3<f64>) = if use_deg {
+            let e = Euler { x: Deg(hx), y: Deg(hy), z: Deg(hz) };
+            ((e.into(), e.into(), e.into(), e.into()), Matrix3::from_angle_x(Deg(hx)) * Matrix3::from_angle_y(Deg(hy)) * Matrix3::from_angle_z(Deg(hz)))
+        } else {
+            let e = Euler { x: Rad(hx), y: Rad(hy), z: Rad(hz) };
+            ((e.into(), e.into(), e.into(), e.into()), Matrix3::from_angle_x(Rad(hx)) * Matrix3::from_angle_y(Rad(hy)) * Matrix3::from_angle_z(Rad(hz)))
+        };
+        let p = prod.rm();
+        ensure!(p.mul(&p.transpose()).max_abs_diff(&RM::ident(3)) <= 1e-12, "huge-angle-product-f64", "from_angle_x * from_angle_y * from_angle_z of huge angles is not orthonormal: {:?}", prod);
+        for (name, got) in [("Matrix3", m3.rm()), ("Matrix4 (linear part)", m4.rm().block(3)), ("Basis3", Matrix3::from(b3).rm()), ("Quaternion", Matrix3::from(q).rm())] {
+            let e = got.max_abs_diff(&p);
+            ensure!(e <= 1e-12, "huge-angle-xyz-f64", "{}::from(Euler) with huge angles ({:e}, {:e}, {:e}) differs from from_angle_x * from_angle_y * from_angle_z by {:e}", name, hx, hy, hz, e);
+        }
+        ensure!(m4.rm().max_abs_diff(&p.embed(4)) <= 1e-12, "huge-angle-xyz-f64", "Matrix4::from(Euler) with huge angles is not the embedded rotation");
+    }
     pass(if use_deg { "deg" } else { "rad" }, true)
 }
 
@@ -194,8 +216,8 @@ pub fn property() -> Property {
         };
     }
     add!("euler_to_rotation-Q", "Q", to_rot_q, 5000, 300_000, 24, &[("generic", 200)], "sin and cos of all three angles non-zero with |sin| != |cos|");
-    add!("euler_to_rotation-f64", "f64", to_rot_f64, 8000, 500_000, 16, &[("rad", 200), ("deg", 200)], "every generated triple (a few turns, exact quarter-turn multiples, tiny angles, many-turn angles up to 1e12 rad) is non-trivial");
-    add!("quaternion_to_euler-f64", "f64", extract_f64, 20000, 1_000_000, 24,
+    add!("euler_to_rotation-f64", "f64", to_rot_f64, 8000, 500_000, 48, &[("rad", 200), ("deg", 200)], "every generated triple (a few turns, exact quarter-turn multiples, tiny angles, many-turn angles up to 1e12 rad; plus a triple of huge angles 1e290..MAX for the structure clause) is non-trivial");
+    add!("quaternion_to_euler-f64", "f64", extract_f64, 20000, 1_000_000, 40,
         &[("regular", 100), ("regular-exact-zeros", 60), ("regular-near-cone", 50), ("cone+", 50), ("cone-", 50), ("boundary", 20)],
         "every generated unit quaternion; classes regular / near-cone / cone+ / cone- / boundary band are all required");
     Property {
